@@ -10,6 +10,7 @@ import (
 	"path/filepath"
 	"sort"
 	"strings"
+	"syscall"
 	"testing"
 	"time"
 
@@ -142,7 +143,11 @@ func genC35(t *rapid.T) c35Scenario {
 			profile = rapid.IntRange(0, 3).Draw(t, "profile")
 		}
 		p := profile
-		ops := rapid.SliceOfN(rapid.Custom(func(t *rapid.T) c35Op { return genC35Op(t, p) }), 1, 8).Draw(t, "ops")
+		maxOps := 6
+		if p == 1 {
+			maxOps = 4 // a Reload costs 0.1-2 s under the race detector
+		}
+		ops := rapid.SliceOfN(rapid.Custom(func(t *rapid.T) c35Op { return genC35Op(t, p) }), 1, maxOps).Draw(t, "ops")
 		s.Actors = append(s.Actors, c35Actor{Ops: ops})
 	}
 	// Stop in roughly half of the scenarios: appended to one actor's script with
@@ -165,7 +170,8 @@ type c35Race struct {
 	FrameA    string
 	FrameB    string
 	Text      string
-	Harness   bool // no refinery frame in at least one access stack, or no refinery frame at all
+	Harness   bool // no refinery frame in either access stack
+	Unattributed bool // a stack could not be restored by the detector
 }
 
 // c35FuncName strips the argument list from a race-report frame line.
@@ -249,6 +255,11 @@ func c35ParseRaces(log string) []c35Race {
 			fb, tb = c35TopRefineryFrame(stacks[1])
 		}
 		switch {
+		case len(stacks) < 2 || len(stacks[0]) == 0 || len(stacks[1]) == 0:
+			// the detector could not restore one of the stacks: the race cannot
+			// be attributed to a frame pair
+			r.Unattributed = true
+			r.FrameA, r.FrameB = fa, fb
 		case fa == "" && fb == "":
 			r.Harness = true
 			r.FrameA, r.FrameB = ta, tb
@@ -282,6 +293,8 @@ type c35ChildSummary struct {
 	ReloadErrs  int            `json:"reload_errs"`
 	ReloadErr   string         `json:"reload_err,omitempty"`
 	WallMs      int64          `json:"wall_ms"`
+	BuildMs     int64          `json:"build_ms"`
+	ActorsMs    int64          `json:"actors_ms"`
 	Upstream    int            `json:"upstream_events"` // events that reached the fake Honeycomb
 	PeerEvents  int            `json:"peer_events"`     // events that reached a fake peer
 	Finished    bool           `json:"finished"`
@@ -313,10 +326,15 @@ func c35RunChild(s c35Scenario) c35RunResult {
 		rr.exitErr = err.Error()
 		return rr
 	}
-	exe, err := os.Executable()
-	if err != nil {
-		rr.exitErr = err.Error()
-		return rr
+	// /proc/self/exe stays executable even if the binary file is unlinked while
+	// we run (other jobs clean /verif/.bin/*.mut-* concurrently)
+	exe := "/proc/self/exe"
+	if _, err := os.Stat(exe); err != nil {
+		exe, err = os.Executable()
+		if err != nil {
+			rr.exitErr = err.Error()
+			return rr
+		}
 	}
 	cmd := exec.Command(exe, "-test.run", "^TestC35Child$", "-test.count=1", "-test.timeout=120s")
 	cmd.Dir = dir
@@ -347,12 +365,21 @@ func c35RunChild(s c35Scenario) c35RunResult {
 			rr.exitErr = err.Error()
 		}
 	case <-time.After(limit):
-		_ = cmd.Process.Kill()
-		<-done
+		// ask the runtime for a goroutine dump first (ends up in child.out)
+		_ = cmd.Process.Signal(syscall.SIGQUIT)
+		select {
+		case <-done:
+		case <-time.After(10 * time.Second):
+			_ = cmd.Process.Kill()
+			<-done
+		}
 		rr.timedOut = true
 	}
 	outF.Close()
 	if b, err := os.ReadFile(filepath.Join(dir, "child.out")); err == nil {
+		if rr.timedOut && os.Getenv("VERIF_C35_DEBUG") != "" {
+			_ = os.WriteFile(filepath.Join(os.Getenv("VERIF_C35_DEBUG"), fmt.Sprintf("timeout-%d.out", time.Now().UnixNano())), append(append([]byte{}, sj...), append([]byte("\n"), b...)...), 0o644)
+		}
 		if len(b) > 3000 {
 			b = b[len(b)-3000:]
 		}
@@ -390,6 +417,10 @@ func execC35(s c35Scenario) vkit.Result {
 		rr := c35RunChild(s)
 		last = rr
 		for _, r := range rr.races {
+			if r.Unattributed {
+				res.Class("race-unattributed(stack not restored)")
+				continue
+			}
 			if seen[r.Signature] {
 				continue
 			}
